@@ -9,6 +9,7 @@ An operation is a JSON list:
     ["del_key", key]            del section[key]   (first item whose session mnemonic matches key)
     ["set", key, name]          section[key] = item(name)  (SectionItems.set_item: replaces the first item
                                 whose session mnemonic matches key; documented to append when key is absent)
+    ["get_add", name]           section.get(name, add=True): appends a new item named name unless the key is present
     ["set_ix", i, name]         section[i] = item(name)   (integer key: the item at position i is replaced)
     ["rci", i, name]            LASFile.replace_curve_item(i, CurveItem(name))   (curves flavour only, i >= 0)
 
@@ -89,6 +90,11 @@ def model_apply(m, op):
         m.delete(i)
         m.insert(i, op[2])
         return old, op[2]
+    if k == "get_add":
+        if model_find(m, op[1]) is not None:
+            return None, None
+        m.append(op[1])
+        return None, op[1]
     if k in ("rci", "set_ix"):
         if not 0 <= op[1] < n:
             raise LookupError(op)
@@ -146,6 +152,8 @@ def applicable_ops(keys, names, rci=True):
     n = len(keys)
     for nm in names:
         yield ["append", nm]
+    for nm in names:
+        yield ["get_add", nm]
     for pos in sorted({0, n // 2, n}):
         for nm in names:
             yield ["insert", pos, nm]
@@ -297,6 +305,12 @@ class Driver(object):
             las.replace_curve_item(op[1], new)
         elif k == "set_ix":
             s[op[1]] = new
+        elif k == "get_add":
+            present = self.find(op[1]) is not None
+            got = s.get(op[1], add=True)
+            if not present:
+                self.objs.append(got)
+            return
         elif k == "move":
             it = list.__getitem__(s, op[1])
             if las is not None:
